@@ -38,6 +38,9 @@ pub struct VmError { _p: () }
 pub struct ThreadPtr { _p: () }
 
 impl ThreadPtr {
+    // R-gc: GcPtr<Thread>::clone_unrooted copies the pointer
+    #[verifier::external_body]
+    pub fn clone_unrooted(&self) -> (r: ThreadPtr) ensures r == *self { unimplemented!() }
     // ASSUMED contract of Thread::deep_clone_value (its share-or-copy guard is verified in the
     // C13 clone unit; structural equality of the copy is not verified anywhere).
     #[verifier::external_body]
@@ -125,3 +128,28 @@ pub proof fn lemma_reference_last_write(init: Value, ops: Seq<ROp>)
         assert(ops[ops.len() - 1] == ops.last());
     }
 }
+
+// ---- value::Cloner as seen from Userdata::deep_clone (opaque; its share-or-copy guard is the C13 clone unit)
+#[verifier::external_body]
+pub struct Cloner { _p: () }
+pub uninterp spec fn cloner_thread(c: Cloner) -> ThreadPtr;
+pub struct Variants { pub v: Value }
+impl Variants {
+    // R-gc: `.unrooted()` forgets the root, identity on the abstract value
+    #[verifier::external_body]
+    pub fn unrooted(self) -> (r: Value) ensures r == self.v { unimplemented!() }
+}
+impl Cloner {
+    // ASSUMED: Cloner::deep_clone returns a structurally equal copy in the receiving heap; the receiving thread is fixed
+    #[verifier::external_body]
+    pub fn deep_clone(&mut self, value: &Value) -> (r: Result<Variants, VmError>)
+        ensures r is Ok ==> same_value(r->Ok_0.v, *value), cloner_thread(*final(self)) == cloner_thread(*old(self))
+    { unimplemented!() }
+    #[verifier::external_body]
+    pub fn thread(&self) -> (r: ThreadPtr) ensures r == cloner_thread(*self) { unimplemented!() }
+}
+// `deep_cloner.gc().alloc(Move(data))`: allocates the boxed userdata in the receiving heap; the result designates `data`
+#[verifier::external_body]
+pub fn cloner_alloc(c: &mut Cloner, data: Reference) -> (r: Result<Reference, VmError>)
+    ensures r is Ok ==> r->Ok_0 == data, cloner_thread(*final(c)) == cloner_thread(*old(c))
+{ unimplemented!() }
